@@ -402,7 +402,7 @@ def check_composites(model, rep):
                     rep.ob('R07.5', f.key, f.where(s_), False, f'`{stmt_text(s_)[:70]}` writes into `{base.id}`, which is (a no-copy view of) an argument of the caller: the caller\'s array is modified and reusing it gives another result',
                            statement=f'mutates {base.id}')
     rep.ob('R07.5', 'function:__implementations__', mod.relpath + ':1', True, f'{nstore} in-place stores in function.py inspected: none targets caller-owned data', statement='no-argument-mutation')
-    # R07.6: slice normalisation follows Python's slice semantics in both layers
+    # R07.6: slice normalisation follows Python's slice semantics
     want_start = '0ifs.startisNoneelses.startifs.start>=0elses.start+n'
     want_stop = 'nifs.stopisNoneelses.stopifs.stop>=0elses.stop+n'
     for key in ('function:_takeslice', 'evaluable:_takeslice'):
@@ -411,6 +411,20 @@ def check_composites(model, rep):
         ok = a.get('start') == want_start and a.get('stop') == want_stop
         rep.ob('R07.6', f.key, f.where(), ok, 'negative and missing slice bounds are normalised as Python does (None -> 0 / n, negative -> + n, 0 stays 0)' if ok else
                f'{key} normalises slice bounds as start={a.get("start")}, stop={a.get("stop")}: not Python\'s slice semantics (e.g. an explicit stop 0 or start 0)', statement='slice-normalisation')
+    # at the function level axis lengths are integers, so out-of-range bounds can and must be clipped as Python/NumPy do:
+    # the unit-step branch takes start/stop from slice.indices(n) (or clips explicitly) and never lets stop fall below start
+    f = model.func('function:_takeslice')
+    unit = [g for g in ast.walk(f.node) if isinstance(g, ast.If) and 'step' in src(g.test) and ('== 1' in src(g.test) or '==1' in src(g.test))]
+    if len(unit) != 1:
+        raise AnalysisError('function._takeslice: the unit-step branch was not found')
+    body = unit[0].body
+    clipped = any(isinstance(c, ast.Call) and method_name(c) == 'indices' for s_ in body for c in ast.walk(s_)) or \
+        (any(isinstance(c, ast.Call) and src(c.func).endswith('max') for s_ in body for c in ast.walk(s_)) and any(isinstance(c, ast.Call) and src(c.func).endswith('min') for s_ in body for c in ast.walk(s_)))
+    ordered = any(isinstance(s_, ast.Assign) and src(s_.targets[0]) in ('stop', 'length') and any(isinstance(c, ast.Call) and src(c.func).endswith('max') for c in ast.walk(s_.value)) for s_ in ast.walk(unit[0]))
+    ok = clipped and ordered
+    rep.ob('R07.6', f.key, f.where(unit[0]), ok, 'unit-step slices clip out-of-range bounds (slice.indices) and an empty range stays empty (stop >= start)' if ok else
+           'the unit-step branch of function._takeslice shifts negative bounds by the length but does not clip them to the axis: a[-10:3] of a length-5 array has 8 entries, a[1:10] and a[3:1] build a range of impossible '
+           'length, where Python and NumPy clip', statement='slice-clipping')
 
 
 NONBROADCAST = {   # NumPy functions whose named operands are NOT broadcast against each other: (first operand, second operand, how)
